@@ -11,7 +11,7 @@ if [ "$1" = "--clean" ]; then
   git -C /repo worktree prune
   exit 0
 fi
-ID=$1; PATCH=$(readlink -f "$2"); shift 2
+ID=$1; PATCHES="$2"; shift 2
 D=/tmp/kvh-mut-$ID
 bin=$(echo $ID | tr 'A-Z' 'a-z')
 mkdir -p $D
@@ -19,9 +19,12 @@ if [ ! -d $D/repo ]; then
   git -C /repo worktree add --detach $D/repo HEAD >/dev/null 2>&1 || { echo "worktree failed"; exit 2; }
 fi
 git -C $D/repo checkout -q --detach $(git -C /repo rev-parse HEAD) && git -C $D/repo checkout -q -- . && git -C $D/repo clean -fdq
-if [ "$PATCH" != "/dev/null" ]; then
-  git -C $D/repo apply "$PATCH" || { echo "patch does not apply"; exit 2; }
-fi
+IFS=':' read -ra PLIST <<< "$PATCHES"
+for P in "${PLIST[@]}"; do
+  if [ "$P" != "/dev/null" ]; then
+    git -C $D/repo apply "$(readlink -f "$P")" || { echo "patch does not apply: $P"; exit 2; }
+  fi
+done
 rm -rf $D/harness $D/root
 mkdir -p $D/harness $D/root
 cp -r /verif/harness/src /verif/harness/Cargo.toml /verif/harness/Cargo.lock $D/harness/
